@@ -113,6 +113,14 @@ func (w *World) CheckLifecycle(out *Outcome, o *Obs) []Violation {
 		}
 		return m
 	}
+	failedAttempt := map[string]bool{}
+	for _, c := range o.Reg {
+		if c.Op == "goc-exit" && c.Err && (o.EndOfRun <= 0 || c.Seq <= o.EndOfRun) {
+			if id := w.instByName(c.Name); id != "" {
+				failedAttempt[id] = true
+			}
+		}
+	}
 	// short-circuited: an instantiation-aware processor answered before instantiation with
 	// the registered instance itself
 	shortCircuited := map[string]string{}
@@ -138,7 +146,12 @@ func (w *World) CheckLifecycle(out *Outcome, o *Obs) []Violation {
 		if proc, ok := shortCircuited[i.ID]; ok && (len(l.init)+len(l.aps)+len(l.before) != 0) {
 			vs = append(vs, v("C05", "short-circuited-component-went-through-lifecycle", i.ID, fmt.Sprintf("processor %s answered PostProcessBeforeInstantiation of %s with the registered instance itself (creation is short-circuited: after-initialization callbacks only), yet the component also received before-initialization %v, AfterPropertiesSet %v, Init %v", proc, i.ID, sdl.SortedKeys(l.before), l.aps, l.init)))
 		}
-		// at most once on any run
+		// at most once on any run - per creation: a component whose creation failed and was
+		// attempted again (the failure was delivered to an application that copes with it) goes
+		// through its lifecycle once per attempt
+		if failedAttempt[i.ID] {
+			continue
+		}
 		if len(l.init) > 1 {
 			vs = append(vs, v("C05", "init-more-than-once", i.ID, fmt.Sprintf("Init of %s ran %d times in one start (events %v)", i.ID, len(l.init), l.init)))
 		}
@@ -743,4 +756,3 @@ func faultKindOf(site string) string {
 	k, _, _ := strings.Cut(site, ":")
 	return k
 }
-
